@@ -6,7 +6,8 @@
      merge_sorted_NoDup   ... each once
      merge_sorted_perm    hence it is a permutation of the present part of Dag.ancestors
      depth0_is_lefthand   its depth-0 entries are the left-hand history, newest first
-     mainline_revnos      and they are numbered n, n-1, ..., 1
+     merge_sorted_steps   it starts at depth 0 and a depth step goes up by at most one
+   (the numbering of the left-hand history is in Theory/DagMergeSortMainline.v)
 *)
 From Coq Require Import List Arith Bool Lia Permutation.
 From BV Require Import Lib.Dag Theory.DagFacts Lib.DagMergeSort.
